@@ -100,12 +100,12 @@ fn mix_set(k: usize, pos: usize) -> (V9Set, usize) {
 }
 
 pub fn streams(tier: &str) -> Vec<StreamGen> {
-    streams_with(tier, 4)
+    streams_with(tier, if tier == "thorough" { 5 } else { 4 })
 }
 
-/// `quick_lists`: length bound of the multi-field template lists in the quick tier (the properties whose oracle is
-/// costly per evaluation - serialisation, the second build - take 3)
-pub fn streams_with(tier: &str, quick_lists: usize) -> Vec<StreamGen> {
+/// `lists`: length bound of the multi-field template lists (the properties whose oracle is costly per evaluation -
+/// serialisation, the second build - take one less in each tier)
+pub fn streams_with(tier: &str, lists: usize) -> Vec<StreamGen> {
     let thorough = tier == "thorough";
     let mut v: Vec<StreamGen> = vec![];
 
@@ -130,7 +130,7 @@ pub fn streams_with(tier: &str, quick_lists: usize) -> Vec<StreamGen> {
     // 2. multi-field templates over the class representatives
     {
         let reps = v9_reps();
-        let maxlen = if thorough { 5 } else { quick_lists };
+        let maxlen = lists;
         let nl = list_count(reps.len(), maxlen);
         let r2 = reps.clone();
         let mk = move |i: u64| -> Option<Vec<Vec<u8>>> {
